@@ -340,6 +340,29 @@ Check C16_accepted_positions : forall A tbl specs m,
                                   /\ al_find (fst x) m = Some (n, c)) (spec_inits m).
 Print Assumptions C16_accepted_positions.
 
+(* Amounts of at most 28 bytes (every amount a person types): accepted by
+   Decimal::from_str exactly when they are plain decimal texts - optional
+   sign, digits, at most one '.', at least one digit - and then read as
+   written.  (Longer texts can reach the overflow / rounding paths of the
+   parser: [parse_dec] itself, C16_plain_decimal_text for the plain ones.) *)
+From ACB Require Import Proofs.InitSpecShort.
+Theorem C16_short_amount_iff : forall s d,
+  (length s <= 28)%nat ->
+  (parse_dec s = Ok d <->
+   exists sg w f,
+     all_digits w /\ all_digits f /\ w ++ f <> []
+     /\ (s = sign_bytes sg ++ chars w ++ 46%N :: chars f \/ (f = [] /\ s = sign_bytes sg ++ chars w))
+     /\ d = mk_dec (sign_neg sg && negb (val (w ++ f) =? 0)%N) (val (w ++ f)) (length f)).
+Proof. exact short_amount_iff. Qed.
+Check C16_short_amount_iff : forall s d,
+  (length s <= 28)%nat ->
+  (parse_dec s = Ok d <->
+   exists sg w f,
+     all_digits w /\ all_digits f /\ w ++ f <> []
+     /\ (s = sign_bytes sg ++ chars w ++ 46%N :: chars f \/ (f = [] /\ s = sign_bytes sg ++ chars w))
+     /\ d = mk_dec (sign_neg sg && negb (val (w ++ f) =? 0)%N) (val (w ++ f)) (length f)).
+Print Assumptions C16_short_amount_iff.
+
 (* Non-vacuity: what the code does with concrete texts. *)
 Import String.StringSyntax.
 Local Open Scope string_scope.
